@@ -499,16 +499,19 @@ fn verif_native_c01_grid_roundtrip() {
 }
 
 //@n {"id":"C09.N.proj.strings","props":["C09"],"tier":"quick","bound":"all sequences of 1 to 4 tokens over a 16-token PROJ vocabulary (proj=pipeline / merc / utm / empty, step, inv, omit_fwd, zone=, k=, a=, rf=, b=, ellps=, init=, a comment, a leading +) = 69904 strings, each through parse_proj and through Plain::op (which runs parse_proj on every definition) and, when it instantiates, applied to 2 tuples in both directions","text":"no definition string in PROJ syntax makes the library panic: translation and instantiation return an error value or an operator; applying the operator never panics"}
+static PROJ_QUIET: std::sync::atomic::AtomicBool = std::sync::atomic::AtomicBool::new(false);
 #[test]
 fn verif_native_c09_proj_strings() {
     let vocab = ["step", "inv", "proj=merc", "proj=pipeline", "proj=utm", "zone=32", "k=0.9996", "a=6378137", "rf=298.257", "b=6356752", "ellps=GRS80", "omit_fwd", "+proj=tmerc", "init=epsg:4326", "#note", "proj="];
     // silence the panic messages of THIS test's thread only (other tests running in parallel need theirs)
     let prev = std::panic::take_hook();
     std::panic::set_hook(Box::new(move |info| {
-        if !std::thread::current().name().map(|n| n.contains("verif_native_c09_proj_strings")).unwrap_or(false) {
+        let quiet = PROJ_QUIET.load(std::sync::atomic::Ordering::SeqCst) && std::thread::current().name().map(|n| n.contains("verif_native_c09_proj_strings")).unwrap_or(false);
+        if !quiet {
             prev(info);
         }
     }));
+    PROJ_QUIET.store(true, std::sync::atomic::Ordering::SeqCst);
     let mut sites: std::collections::BTreeMap<String, String> = std::collections::BTreeMap::new();
     let mut n = 0usize;
     let mut ctx = Plain::default();
@@ -550,6 +553,7 @@ fn verif_native_c09_proj_strings() {
             break;
         }
     }
+    PROJ_QUIET.store(false, std::sync::atomic::Ordering::SeqCst);
     let ids: Vec<String> = sites.keys().cloned().collect();
     assert!(sites.is_empty(), "C09.N.proj.strings: FAILSET{{{}}} {} panic sites in {} definitions: {:?}", ids.join(","), sites.len(), n, sites);
 }
